@@ -24,7 +24,7 @@ import Verif.Model.Admin
           boot                                start the CA on that database
       <faults> = `-` or positions joined by `+` (1-based database calls inside the request)
 
-  Output: one item per operation joined by `;`.  A mutating operation yields
+  Output: `ok<number of accepted mutations>:` then one item per operation joined by `;`.  A mutating operation yields
   `<outcome>#<dump of every index>`; Find yields `f:<ids>/<next>`; pages `p:<page>|<page>…`.
 -/
 open Verif Verif.Admin
@@ -130,7 +130,7 @@ def authDump (s : Auth) : String :=
   let pList := join (sortS (P.sorted.map fun e => provS e.2))
   let dA := join ((s.db.adms.mergeSort fun x y => strKeyLe x.id y.id).map admS)
   let dP := join (sortS (s.db.provs.map provS))
-  s!"A[{aList}]S[{aSp}]C={A.superCount}P[{pList}]dA[{dA}]dP[{dP}]"
+  s!"A[{aList}]S[{aSp}]P[{pList}]dA[{dA}]dP[{dP}]"
 
 def authOp (s : Auth) (tok : String) : Option (Auth × String) :=
   let fin (r : Auth × AuthOut) := let (s', o) := r; some (s', authOutS o ++ "#" ++ authDump s')
@@ -164,11 +164,15 @@ def runOps {σ : Type} (f : σ → String → Option (σ × String)) : σ → Li
     let (s', o) ← f s t
     runOps f s' r (o :: acc)
 
+/-- `ok<number of accepted mutations>:` followed by the items -/
+def summary (items : List String) : String :=
+  s!"ok{(items.filter (·.startsWith "ok#")).length}:" ++ ";".intercalate items
+
 def eval (line : String) : Option String := do
   let toks := (fields line).filter (fun t => !t.startsWith "case=")
   match toks with
-  | "coll" :: ops => do pure (";".intercalate (← runOps collOp {} ops []))
-  | "auth" :: ops => do pure (";".intercalate (← runOps authOp {} ops []))
+  | "coll" :: ops => do pure (summary (← runOps collOp {} ops []))
+  | "auth" :: ops => do pure (summary (← runOps authOp {} ops []))
   | _ => none
 
 end C16
